@@ -185,6 +185,9 @@ def requiredClasses : List String := [
     throw (IO.userError s!"C11 eq_covers_serialized: serialized member(s) not compared by operator==: {showPairs e}")
   if !(badKeys classes).isEmpty then
     throw (IO.userError s!"C11: translator/class-key mismatch for {badKeys classes}")
+  let up := unmodelledPtr classes
+  if !up.isEmpty then
+    throw (IO.userError s!"C11 pointer_members_modelled: serialized member(s) with a shared_ptr under an unmodelled combinator or a raw pointer: {showPairs up}")
   let s := staleExceptions (exceptions ++ knownUnserialized) classes ++ staleEqExceptions eqExceptions classes
   if !s.isEmpty then
     throw (IO.userError s!"C11 exceptions_tight: stale exception(s): {showPairs s}")
@@ -202,6 +205,12 @@ that really is not serialized / not compared (a stale entry would mask a later r
 theorem exceptions_tight :
     staleExceptions (exceptions ++ knownUnserialized) classes = [] ∧ staleEqExceptions eqExceptions classes = [] := by
   decide +kernel
+
+/-- Every serialized member that holds a `shared_ptr` holds it under combinators of the pointer layer
+(`GTy`: shared_ptr, vector, optional, unique_ptr, array, value of a (unordered_)map, pair/tuple), and
+no raw pointer is serialized — so the member types of the real classes are instances of the shapes
+`shared_unpack_pack` is about (shape computed by the translator from the compiler's type). -/
+theorem pointer_members_modelled : unmodelledPtr classes = [] := by decide +kernel
 
 /-- All classes named by the property are covered by the table.  (Classes are looked up by the
 numeric `key` first and by name second, so a wrong key can only make a lookup fail — i.e. make
@@ -348,5 +357,7 @@ example : (match groundTrip id (.struct [.sptr (.flat (.pod 1)), .sptr (.flat (.
            | .ok (.list [_, .ptr _ (.flat (.pod b))], _) => b | _ => []) = [1] := by decide +kernel
 
 example : (classes.length > 200) = true := by decide +kernel
+/-- the pointer layer is not idle: `Well`'s thirteen members, `ptr_member`, `map_member`, the AST nodes … -/
+example : ((modelledPtr classes).length ≥ 20) = true := by decide +kernel
 
 end OpmVerif.Props.C11
